@@ -827,3 +827,83 @@ def requested_network(ctx):
             ctx.require(end is None or got == req, q, 'network=%r was requested and a key object of network %s is accepted: the wallet continues with network %s' % (req, knet, show(got)[:30]), loops[0],
                         'Wallet.create(name, keys=key_object, network="%s") silently returns a %s wallet: its addresses are not the ones this seed has on the requested network' % (req, knet))
     ctx.floor(n, 8, '(requested network, key network) pairs')
+
+
+@PROP.obligation('C09.foreign-network-refused', canaries=[
+    mut.drop_stmt('wallets', 'Wallet.new_keys', "if network != self.network.name and", 'request for another network reaches the key derivation of an account-level wallet'),
+])
+def foreign_network_refused(ctx):
+    """A wallet whose key structure has no coin_type level - one restored from an account-level extended key (path M/change/address_index)
+    - holds the keys of ONE network. Wallet.new_keys, evaluated as a whole for such a wallet, refuses a request for another network before
+    it reaches keys_for_path (which would derive the key from the bitcoin account key and store it as a litecoin key); the same request
+    on the wallet's own network, and on a wallet with a coin_type level, goes through."""
+    q = 'wallets:Wallet.new_keys'
+    fn = ctx.repo.func(q)
+    A = lambda b, n: ('attr', b, n)
+    n = 0
+    for key_path, net, want in ((['M', 'change', 'address_index'], 'litecoin', 'refused'), (['M', 'change', 'address_index'], 'bitcoin', 'derives'),
+                                (['m', "purpose'", "coin_type'", "account'", 'change', 'address_index'], 'litecoin', 'derives')):
+        reached = []
+
+        def h_kfp(it, base, args, kwargs, st, node):
+            reached.append({k: (v if isinstance(v, (str, int, type(None))) else term(v)) for k, v in kwargs.items()})
+            return S(('var', 'newkeys'), 'list')
+
+        def h_defaults(it, base, args, kwargs, st, node):
+            return (args[0] if args else kwargs.get('network'), 0, S(('var', 'acckey')))
+        heap = {A(SELF, 'scheme'): 'bip32', A(SELF, 'key_path'): list(key_path), A(A(SELF, 'network'), 'name'): 'bitcoin', A(SELF, 'multisig'): False,
+                A(SELF, 'witness_type'): 'segwit', A(SELF, 'purpose'): 84, A(SELF, 'key_depth'): len(key_path) - 1, A(SELF, 'cosigner_id'): None, A(SELF, 'cosigner'): []}
+        it = Interp(ctx.repo, 'wallets', hooks={'.keys_for_path': h_kfp, '._get_account_defaults': h_defaults}, self_cls='wallets:Wallet',
+                    decide=lambda t: False if isinstance(t, tuple) and t and t[0] == 'mcall' and t[2] == 'first' else None)
+        try:
+            exits = it.run_function(fn, {'self': S(SELF), 'name': '', 'account_id': None, 'change': 1, 'cosigner_id': None, 'witness_type': None, 'number_of_keys': 1, 'network': net},
+                                    State(heap=heap))
+        except AnalysisError as e:
+            ctx.undecided('Wallet.new_keys(network=%r) on a wallet with key path %s not evaluable: %s' % (net, '/'.join(key_path), str(e)[:100]))
+        if any(e.pc for e in exits):
+            ctx.undecided('Wallet.new_keys(network=%r): outcome depends on %s' % (net, [show(t)[:50] for e in exits for t, _ in e.pc][:2]))
+        n += 1
+        got = 'derives' if reached else 'refused'
+        ctx.saw('key path %s, own network bitcoin, requested %s -> %s' % ('/'.join(key_path), net, got))
+        if want == 'refused':
+            ctx.require(got == 'refused', q, 'a wallet with key path %s (no coin_type level) on bitcoin derives keys for network %s (keys_for_path reached with network=%r)' % ('/'.join(key_path), net, reached[0].get('network') if reached else None), fn,
+                        'get_key_change(network="litecoin") on a wallet restored from a bitcoin account key returns M/1/0 of the bitcoin key stored as a litecoin key - not the documented path of that network - and blocks the wallet\'s own change chain after reopening')
+        else:
+            ctx.require(got == 'derives' and reached[0].get('network') == net, q, 'a request for network %s on a wallet with key path %s is %s' % (net, '/'.join(key_path), got), fn)
+    ctx.floor(n, 3, 'network scenarios')
+
+
+@PROP.obligation('C09.level-offset', canaries=[
+    mut.replace_expr('wallets', 'Wallet.keys_for_path', 'level_offset - self.main_key.depth', 'level_offset - self.depth_public_master', 'absolute level converted with the depth of the account level instead of the main key'),
+])
+def level_offset(ctx):
+    """key_for_path(path, level_offset=k) with a positive k asks for the key at absolute depth k of the wallet's path template (k =
+    depth_public_master + 1 is the documented way to get the account key). keys_for_path converts it into an offset relative to the MAIN
+    key: the statements that compute `level_offset_key` are evaluated for a wallet holding the master key (depth 0) and for one restored
+    from an account key (depth 3): the result is k - depth of the main key; negative offsets pass unchanged."""
+    q = 'wallets:Wallet.keys_for_path'
+    fn = ctx.repo.func(q)
+    stmts = [x for x in fn.body if any(isinstance(n, ast.Assign) and any(isinstance(t, ast.Name) and t.id == 'level_offset_key' for t in n.targets) for n in ast.walk(x))]
+    if not stmts:
+        ctx.undecided('keys_for_path: computation of level_offset_key not found')
+    A = lambda b, n: ('attr', b, n)
+    MK = ('var', 'mainkey')
+    n = 0
+    for depth, off, want in ((0, 4, 4), (0, 1, 1), (3, 4, 1), (3, 5, 2), (0, -1, -1), (3, -1, -1), (0, None, None)):
+        it = Interp(ctx.repo, 'wallets', self_cls='wallets:Wallet', decide=lambda t: True if t == MK else None)
+        st = State(env={'self': S(SELF), 'level_offset': off})
+        st.heap.update({A(SELF, 'main_key'): S(MK), A(MK, 'depth'): depth, A(SELF, 'depth_public_master'): 3, A(SELF, 'key_depth'): 5})
+        it.frames.append([])
+        try:
+            for x in stmts:
+                st = it.exec_stmt(x, st)
+                if st is None:
+                    break
+        except AnalysisError as e:
+            ctx.undecided('keys_for_path: level_offset_key not evaluable for main key depth %d, level_offset %r: %s' % (depth, off, str(e)[:100]))
+        got = None if st is None else st.env.get('level_offset_key')
+        n += 1
+        ctx.saw('main key depth %d, level_offset %r -> level_offset_key %s' % (depth, off, show(term(got))[:30]))
+        ctx.require(st is not None and got == want, q, 'a wallet whose main key has depth %d turns level_offset=%r into %s, expected %r' % (depth, off, show(term(got))[:30], want), stmts[0],
+                    'w.key_for_path([], w.depth_public_master + 1) on a wallet that holds the master key returns the private master key m instead of the account key: a watch-only wallet built from that "account key" cannot reproduce the addresses')
+    ctx.floor(n, 7, 'offset scenarios')
